@@ -273,11 +273,69 @@ def history_case(ctx, lines, pend):
         ctx.oracle_fail(case, {'what': 'original_wcs of the starting corrector changed during the history'})
 
 
+class _FakeWCS:
+    """what `_check_wcs_structure` reads of a gWCS: `pipeline` (None or not) and `available_frames`"""
+    def __init__(self, frames):
+        self.pipeline = list(frames)
+        self.available_frames = list(frames)
+
+
+def frame_structure_correspondence(ctx):
+    """`JWSTWCSCorrector._check_wcs_structure` against the model's `checkFrames` on frame-name lists: every
+    list of length <= 4 over the alphabet {detector, v2v3, v2v3vacorr, v2v3corr, world, x} (exhaustive in the
+    thorough tier, a random third in the quick one), random longer lists built by disturbing valid pipelines
+    (insertion, deletion, duplication, swap), and `None`"""
+    import itertools
+    from tweakwcs.correctors import JWSTWCSCorrector
+    rng = ctx.rng
+    alpha = ['detector', 'v2v3', 'v2v3vacorr', 'v2v3corr', 'world', 'x']
+    lists = [()]
+    for n in (1, 2, 3, 4):
+        for t in itertools.product(alpha, repeat=n):
+            if ctx.tier == 'thorough' or rng.random() < 0.34:
+                lists.append(t)
+    valid = [['detector', 'v2v3', 'world'], ['detector', 'v2v3', 'v2v3vacorr', 'world'],
+             ['detector', 'v2v3', 'v2v3corr', 'world'], ['detector', 'v2v3', 'v2v3vacorr', 'v2v3corr', 'world'],
+             ['grism_detector', 'detector', 'v2v3', 'v2v3vacorr', 'v2v3corr', 'world'],
+             ['detector', 'gwa', 'slit_frame', 'v2v3', 'v2v3corr', 'world']]
+    for _ in range(ctx.n(300, 6000)):
+        fr = list(rng.choice(valid))
+        for _k in range(rng.choice([0, 1, 1, 2])):
+            op = rng.choice(['ins', 'del', 'dup', 'swap'])
+            if op == 'ins':
+                fr.insert(rng.randrange(len(fr) + 1), rng.choice(alpha + ['gwa']))
+            elif op == 'del' and fr:
+                fr.pop(rng.randrange(len(fr)))
+            elif op == 'dup' and fr:
+                fr.insert(rng.randrange(len(fr) + 1), rng.choice(fr))
+            elif op == 'swap' and len(fr) >= 2:
+                i, j = rng.sample(range(len(fr)), 2)
+                fr[i], fr[j] = fr[j], fr[i]
+        lists.append(tuple(fr))
+    lines, real = [], []
+    for fr in lists:
+        ok, _msg = JWSTWCSCorrector._check_wcs_structure(None, _FakeWCS(fr))
+        real.append(bool(ok))
+        lines.append('chkframes ' + (' '.join(fr) if fr else '-'))
+    ok_none, _ = JWSTWCSCorrector._check_wcs_structure(None, None)
+    case0 = {'op': 'chkframes', 'frames': None}
+    ctx.case(case0, nontrivial=True, branch='frames:none')
+    if ok_none:
+        ctx.oracle_fail(case0, {'what': '_check_wcs_structure accepts None'})
+    outs = ctx.driver(lines)
+    for fr, r, out in zip(lists, real, outs):
+        case = {'op': 'chkframes', 'frames': list(fr)}
+        ctx.case(case, nontrivial=len(fr) >= 3, branch='frames:%s' % ('accepted' if r else 'rejected'))
+        if out.strip() != ('1' if r else '0'):
+            ctx.disagree(case, {'op': 'chkframes', 'model': out.strip(), 'impl': int(r)})
+
+
 def run(ctx):
     for _ in range(ctx.n(60, 1500)):
         laws(ctx)
     lines, pend = [], []
     if not getattr(ctx, 'search_only', False):
+        frame_structure_correspondence(ctx)
         for _ in range(ctx.n(20, 500)):
             history_case(ctx, lines, pend)
         outs = ctx.driver(lines)
